@@ -111,8 +111,9 @@ class Sched(object):
                 raise
             except Exception as e:
                 t.done = True
-                t.failed = e
-                self.log.add('raise', t.tid, canon_exc(e))
+                # (never keep the exception: its traceback pins the frames)
+                t.failed = canon_exc(e)
+                self.log.add('raise', t.tid, t.failed)
                 if self.expect_fault is not None and \
                         self.expect_fault(t, e):
                     return False
@@ -264,6 +265,8 @@ def gen_schedule(rng, nviews=1, ntasks=None, maxsteps=40, shape=None,
     after another one got further" is rare under uniform choice."""
     shape = shape or rng.choice(SHAPES)
     ntasks = ntasks or rng.choice([2, 2, 3, 3])
+    if ntasks == 1 and shape in ('late', 'after-exhaust'):
+        shape = 'uniform'
     tids = ['t%d' % i for i in range(ntasks)]
     steps = []
     vi_of = dict((tid, rng.randrange(nviews)) for tid in tids)
